@@ -26,6 +26,15 @@ let () =
               | "parseline" ->
                 let v = match rest with v :: _ -> int_of_string v | [] -> 8 in
                 Driver.handle_parseline (n_of_int v) text
+              | "regex" ->
+                (* text = pattern lines, a line "@@----", program lines; rest = [label] *)
+                let label = match rest with l :: _ -> l | [] -> "*" in
+                let sep = "\n@@----\n" in
+                let idx = (let rec find i = if i + String.length sep > String.length text then -1 else if String.sub text i (String.length sep) = sep then i else find (i+1) in find 0) in
+                if idx < 0 then "{\"err\":\"bad regex request\"}" else
+                let pat = String.sub text 0 idx in
+                let prog = String.sub text (idx + String.length sep) (String.length text - idx - String.length sep) in
+                Driver.handle_regex label pat prog
               | _ -> "{\"err\":\"unknown request\"}")
            with Stack_overflow -> "{\"err\":\"driver stack overflow\"}"
               | e -> "{\"err\":\"driver exception " ^ String.escaped (Printexc.to_string e) ^ "\"}" in
